@@ -136,6 +136,11 @@ def build(features=()):
             build_gen(u, cr, name, g)
         u.raw('}')
     u.lemma_file(never_zero_lemmas(), 'C08', prefix='xoshiro.')
+    # C06: the reference engines are GF(2)-linear, hence the jump polynomials commute with stepping (and with each other)
+    sp = importlib.util.spec_from_file_location('gen_linear_lemmas', os.path.join(HERE, '..', '..', 'tools', 'gen_linear_lemmas.py'))
+    gl = importlib.util.module_from_spec(sp)
+    sp.loader.exec_module(gl)
+    u.lemma_file(gl.gen(), 'C06', prefix='xoshiro.')
     return u
 
 
